@@ -55,7 +55,7 @@ def to_records(obs):
         elif k == "handled":
             recs.append(["handled", r[1]])
         elif k == "backend-raise":
-            recs.append(["backend-raise", r[1]])
+            recs.append(["backend-raise", r[1], r[2] if len(r) > 2 else "Exception"])      # event index, class name
         elif k == "handler-exit":
             recs.append(["handler-exit"])
         elif k in ("hang",):
@@ -107,6 +107,11 @@ class RunStream(C.Stream):
     p_interrupt = 0.0             # probability of an injected keyboard interrupt
     p_fault = 0.0                 # probability of a failing reporting backend
     p_both = 0.0                  # probability of a failing reporting backend AND a keyboard interrupt in the same run
+    p_files = 0.0                 # probability of REAL file backends + a --save-report strategy attached to the run
+    file_backends = ("json",)
+    savings = ("at_each_failed_test", "at_each_test", "at_each_log", "at_each_suite")
+    p_listeners = 0.0             # probability of further listeners of ONE class with per-instance handler sets (observe.SubsetSession)
+    p_base_fault = 0.0            # share of the backend faults that are BaseExceptions `except Exception` does not catch
     quick_cases = 60
     thorough_cases = 8000
     quick_seconds = 40
@@ -119,6 +124,15 @@ class RunStream(C.Stream):
         project["nb_threads"] = rng.choice(list(self.threads))
         case = {"project": project, "strategy": rng.choice(list(self.strategies)), "gseed": rng.randrange(1 << 24),
                 "interrupt": None, "fault": None}
+        if self.p_files and rng.random() < self.p_files:
+            # as `lcc run --reporting json [junit] --save-report <expr>`: the real backends save the report during the run
+            case["files"] = {"backends": list(self.file_backends), "saving": rng.choice(list(self.savings))}
+        if self.p_listeners and rng.random() < self.p_listeners:
+            # 2..3 sessions of one class; the less complete ones tend to come first
+            shapes = [rng.choice(O.LISTENER_SHAPES) for _ in range(rng.choice([2, 2, 3]))]
+            if rng.random() < 0.5:
+                shapes.sort(key=lambda sh: len(O.listener_events(sh)))
+            case["listeners"] = shapes
         r = rng.random()
         # p_both: a backend failure AND a keyboard interrupt in the same run (either may come first: the fault's event
         # index and the interrupt's completion count are drawn independently)
@@ -132,15 +146,20 @@ class RunStream(C.Stream):
             # the message: usual, EMPTY (str(exception) == "": a bare assert, KeyError()), starting with a line break
             text = rng.choice([FAULT_TEXT, FAULT_TEXT, FAULT_TEXT, "", "\n" + FAULT_TEXT, " "])
             case["fault"] = {"k": rng.randint(0, 40) if not both else rng.randint(0, 25), "cls": rng.choice(O.FAULT_CLASSES), "text": text}
+            if self.p_base_fault and rng.random() < self.p_base_fault:
+                # GeneratorExit / SystemExit / KeyboardInterrupt raised INSIDE a handler (on the event-handling thread)
+                case["fault"]["cls"] = rng.choice(O.BASE_FAULT_CLASSES)
         return case
 
     def impl(self, case):
+        files = case.get("files") or {}
+        fkw = dict(file_backends=files.get("backends"), saving=files.get("saving")) if files else {}
         obs = O.run_project(case["project"], strategy=case["strategy"], gate_seed=case["gseed"],
-                            interrupt_at=case["interrupt"], backend_fault=case["fault"])
+                            interrupt_at=case["interrupt"], backend_fault=case["fault"], listeners=case.get("listeners"), **fkw)
         if ("C05" in self.oracles and not case["interrupt"] and not case["fault"]
                 and (case["project"]["nb_threads"] != 1 or case["strategy"] != "off")):
-            base = O.run_project(dict(case["project"], nb_threads=1), strategy="off")
-            obs["baseline"] = {k: base.get(k) for k in ("report", "report_view", "attachments", "outcome")}
+            base = O.run_project(dict(case["project"], nb_threads=1), strategy="off", **fkw)
+            obs["baseline"] = {k: base.get(k) for k in ("report", "report_view", "attachments", "outcome", "saved")}
         return obs
 
     def oracle(self, case, obs):
@@ -180,7 +199,11 @@ class RunStream(C.Stream):
         ires = [r[0] if r[0] != "none" else None for r in obs["results"]]
         if mres != ires:
             return f"task results differ: model {mres} impl {ires}"
-        if "returned" in out and ans["any_failed"] == out["returned"]:
+        # a handler left by a BaseException `except Exception` does not catch (finding D42): the event-handling thread is
+        # dead, the report writer saw a prefix of the fired events only — the returned verdict and the report are those of
+        # that prefix (the oracle speaks about the run carrying on); the trace itself is replayed like any other
+        dead = any(r[0] == "backend-raise" and len(r) > 2 and r[2] in O.BASE_FAULT_CLASSES for r in obs["trace"])
+        if "returned" in out and ans["any_failed"] == out["returned"] and not dead:
             return f"run returned {out['returned']} but the model's failure flag is {ans['any_failed']}"
         # the two statements of the C07 grammar (Lean acceptor, Python recogniser) must agree on the fired stream
         fired = [r[2] for r in obs["trace"] if r[0] == "fire"]
@@ -191,7 +214,7 @@ class RunStream(C.Stream):
         if py_ok != lean_ok:
             return f"the two statements of the stream grammar disagree on the fired stream: Lean {lean_ok}, Python {py_ok}"
         rep = canon_report_for_model(obs.get("report"))
-        if rep is not None and "returned" in out:
+        if rep is not None and "returned" in out and not dead:
             m = R.unwire(ans["report"])
             if "writer_error" in m:
                 return "writer model error: " + m["writer_error"]
@@ -212,6 +235,16 @@ class RunStream(C.Stream):
             f.append("interrupt-" + case["interrupt"][0] + ("-delivered" if any(r[0] == "interrupt" for r in obs["trace"]) else "-missed"))
         if case["fault"]:
             f.append("fault-" + case["fault"]["cls"] + ("-fired" if any(r[0] == "backend-raise" for r in obs["trace"]) else "-not-reached"))
+        if case.get("files"):
+            f.append("file-backends=" + "+".join(case["files"]["backends"]))
+            f.append("save-report=" + case["files"]["saving"])
+        if case.get("listeners"):
+            sizes = [len(O.listener_events(sh)) for sh in case["listeners"]]
+            f.append("listeners-of-one-class=%d" % len(sizes))
+            if any(a < b for a, b in zip(sizes, sizes[1:])):
+                f.append("less-complete-listener-registered-first")
+            if len(set(map(tuple, map(O.listener_events, case["listeners"])))) > 1:
+                f.append("listeners-with-different-handler-sets")
         if case["fault"] and case["interrupt"]:
             ks = [r[0] for r in obs["trace"] if r[0] in ("backend-raise", "interrupt")]
             if len(ks) == 2:
@@ -231,3 +264,8 @@ class RunStream(C.Stream):
                 yield dict(case, fault=dict(case["fault"], k=case["fault"]["k"] - 1))
         if case["strategy"] != "off":
             yield dict(case, strategy="off")
+        if case.get("files") and case["files"]["saving"] != "at_each_test":
+            yield dict(case, files=dict(case["files"], saving="at_each_test"))
+        if case.get("listeners") and len(case["listeners"]) > 2:
+            for j in range(len(case["listeners"])):
+                yield dict(case, listeners=case["listeners"][:j] + case["listeners"][j + 1:])
